@@ -15,6 +15,12 @@ def base_tissue(rng, fam, ncells=None, max_phi=1.2):
         at = tissue.lattice(kind, nx, ny, a=float(10 ** rng.uniform(-1, 1)))
         return at
     n = ncells or int(rng.integers(8, 70))
+    if fam in ("vor4", "mob4"):
+        # equilibrium tissues WITH four-fold junctions: an exact square block of sites inside a random diagram
+        at = tissue.voronoi(rng, n=max(n, 16), kind="uniform", block=True)
+        if fam == "mob4":
+            at = tissue.random_mobius(rng, at, strength=10 ** rng.uniform(-1.5, 0.5), max_phi=max_phi)
+        return at
     at = tissue.voronoi(rng, n=n, kind=KINDS[int(rng.integers(3))])
     if fam == "mob":
         # half of the Moebius images clearly curved (turning 0.05..2 rad per interface), half from nearly straight on
